@@ -1,7 +1,13 @@
 use std::cell::RefCell;
+#[cfg(not(feature = "verif"))]
 use std::collections::HashMap;
+#[cfg(feature = "verif")]
+use crate::tyme::verif::HashMap;
 use std::fmt::{Display, Formatter};
+#[cfg(not(feature = "verif"))]
 use std::sync::{Arc, Mutex, MutexGuard};
+#[cfg(feature = "verif")]
+use crate::tyme::verif::{Arc, Mutex, MutexGuard};
 
 use lazy_static::lazy_static;
 
